@@ -508,4 +508,57 @@ impl<K: KdfTrait> Drop for ExporterSecret<K> {
             return Err(HpkeError::KdfOutputTooLong);
         }
         // Use our exporter secret as the PRK for an HKDF-Expand op. The only time this fails is""")]),
+    # ------------------------------------------------------------------ C12
+    dict(name='c12-p384-pubkey-size-96', expect=[('C12', 'R12.1')],
+         note='P-384 public keys cannot be serialized/deserialized (panic / length error); p384 is not in the default features',
+         edits=[(NIST, "typenum::U97, // RFC 9180 §7.1: Npk of DHKEM(P-384, HKDF-SHA384) is 97", "typenum::U96, // RFC 9180 §7.1: Npk of DHKEM(P-384, HKDF-SHA384) is 97")]),
+    dict(name='c12-p521-ndh-65', expect=[('C12', 'R12.1')],
+         note='P-521 DH result serialization panics (65 vs 66 bytes); p521 not compiled by default',
+         edits=[(NIST, "typenum::U66,  // RFC 9180 §4.1: Ndh of P-521 is equal to 66", "typenum::U65,  // RFC 9180 §4.1: Ndh of P-521 is equal to 66")]),
+    dict(name='c12-x25519-privkey-guard-args-swapped', expect=[('C12', 'R12.2')],
+         note='error payload (given, expected) for X25519 private keys',
+         edits=[(X25519, """        // Privkeys must be 32 bytes
+        enforce_equal_len(Self::OutputSize::to_usize(), encoded.len())?;""", """        // Privkeys must be 32 bytes
+        enforce_equal_len(encoded.len(), Self::OutputSize::to_usize())?;""")]),
+    dict(name='c12-tag-guard-removed', expect=[('C12', 'R12.2')],
+         note='AeadTag::from_bytes panics on wrong-length input instead of returning IncorrectInputLength',
+         edits=[(AEAD, """        enforce_equal_len(Self::size(), encoded.len())?;
+
+        // Copy to a fixed-size array
+        let mut arr = <GenericArray<u8, Self::OutputSize> as Default>::default();""", """        // Copy to a fixed-size array
+        let mut arr = <GenericArray<u8, Self::OutputSize> as Default>::default();""")]),
+    dict(name='c12-wrong-type-in-outbuf-guard', expect=[('C12', 'R12.3')],
+         note='P-521 PrivateKey::write_exact demands a 133-byte buffer (rejects correct 66-byte buffers)',
+         edits=[(NIST, """            impl Serializable for PrivateKey {
+                type OutputSize = $privkey_size;
+
+                fn write_exact(&self, buf: &mut [u8]) {
+                    // Check the length is correct and panic if not
+                    enforce_outbuf_len::<Self>(buf);""", """            impl Serializable for PrivateKey {
+                type OutputSize = $privkey_size;
+
+                fn write_exact(&self, buf: &mut [u8]) {
+                    // Check the length is correct and panic if not
+                    enforce_outbuf_len::<PublicKey>(buf);""")]),
+    dict(name='c12-outbuf-guard-lt', expect=[('C12', 'R12.4')],
+         note='enforce_outbuf_len accepts longer buffers',
+         edits=[(UTIL, "        size == buf_len,", "        size <= buf_len,")]),
+    dict(name='c12-compressed-encoding', expect=[('C12', 'R12.5')],
+         note='NIST public keys serialized compressed: write_exact panics (33 != 65)',
+         edits=[(NIST, "let encoded = self.0.as_affine().to_encoded_point(false);", "let encoded = self.0.as_affine().to_encoded_point(true);")]),
+    dict(name='c12-x25519-copy-buffer-31', expect=[('C12', 'R12.2')],
+         note='X25519 public key parser copies into a 31-byte array: panic on every valid key',
+         edits=[(X25519, """        // Pubkeys must be 32 bytes
+        enforce_equal_len(Self::OutputSize::to_usize(), encoded.len())?;
+
+        // Copy to a fixed-size array
+        let mut arr = [0u8; 32];
+        arr.copy_from_slice(encoded);
+        Ok(PublicKey(x25519_dalek::PublicKey::from(arr)))""", """        // Pubkeys must be 32 bytes
+        enforce_equal_len(Self::OutputSize::to_usize(), encoded.len())?;
+
+        // Copy to a fixed-size array
+        let mut arr = [0u8; 32];
+        arr[..31].copy_from_slice(encoded);
+        Ok(PublicKey(x25519_dalek::PublicKey::from(arr)))""")]),
 ]
